@@ -1,6 +1,7 @@
 package engine
 
 import (
+	"larking.io/api/testpb"
 	"context"
 	"encoding/base64"
 	"fmt"
@@ -68,6 +69,8 @@ type ReqSpec struct {
 	Compress  bool        `json:"compress,omitempty"`
 	Msgs      []MsgSpec   `json:"msgs"`
 	Sep       string      `json:"sep,omitempty"` // json streams: separator between objects
+	BodyCT    string      `json:"body_ct,omitempty"` // HttpBody uploads over plain HTTP: the request's Content-Type ("" = image/jpeg); also media types for which a message codec is registered
+	Accept    string      `json:"accept,omitempty"` // plain HTTP: ask for the response as json | proto (an Accept header; may differ from the request's own Content-Type)
 	SepEnd    bool        `json:"sep_end,omitempty"` // ... and after the last one too (newline-delimited JSON ends every line with its newline)
 	Timeout   string      `json:"timeout,omitempty"`
 	PingPong  bool        `json:"ping_pong,omitempty"`
@@ -88,6 +91,13 @@ type ReqSpec struct {
 	Round     int         `json:"round,omitempty"`    // registrysim: probe of the round after this many registrar operations (0: not gated)
 	Raw       *RawProbe   `json:"raw,omitempty"`      // C16: a request given by verb and path
 	MD        [][2]string `json:"md,omitempty"`       // extra request metadata
+}
+
+func (sp *ReqSpec) bodyCT() string {
+	if sp.BodyCT != "" {
+		return sp.BodyCT
+	}
+	return "image/jpeg"
 }
 
 // payloadID: a direct twin sends and expects the payloads of the request it mirrors.
@@ -294,6 +304,9 @@ func (r *reqState) expectedReq(i int) proto.Message {
 	if r.unknownField(i) {
 		withUnknown(m, r.spec.Msgs[i].Seed)
 	}
+	if u, ok := m.(*testpb.UploadFileRequest); ok && r.spec.Proto == "http" && r.spec.Codec == "body" && u.File != nil {
+		u.File.ContentType = r.spec.bodyCT() // the chunk messages carry the request's Content-Type
+	}
 	return m
 }
 
@@ -427,7 +440,7 @@ func (r *reqState) encode() {
 				r.bounds = append(r.bounds, len(w))
 			}
 		case sp.Codec == "body":
-			h.Set("Content-Type", "image/jpeg")
+			h.Set("Content-Type", sp.bodyCT())
 			for i := range sp.Msgs {
 				w = append(w, payloadFor(sp.payloadID(), i, 'C', sp.Msgs[i])...)
 			}
@@ -479,6 +492,9 @@ func (r *reqState) encode() {
 		case "away":
 			w = append(w, wire.WSClientClose(ws.StatusGoingAway, "bye", [4]byte{4, 3, 2, 1})...)
 		}
+	}
+	if sp.Accept != "" && sp.Proto == "http" {
+		h.Set("Accept", map[string]string{"json": "application/json", "proto": "application/protobuf"}[sp.Accept])
 	}
 	if sp.Slash && sp.Proto == "http" {
 		path += "/"
@@ -792,6 +808,21 @@ type muxRun struct {
 	pre      *registrar
 	monitor  *monitor
 	ref      *refResult // sequential registry scenarios: the history's final state against a fresh registration of what is live
+	teardown []func()   // run when the run is over (contexts handed to registrations)
+	openRefl []string   // backends on which a reflection stream was still open when the run was over
+}
+
+func (mr *muxRun) addTeardown(f func()) { mr.teardown = append(mr.teardown, f) }
+
+// deadBackend: the backend's transport was killed earlier in this run.
+func (mr *muxRun) deadBackend(tag string) bool {
+	b := mr.backendByTag(tag)
+	if b == nil {
+		return false
+	}
+	b.mu.Lock()
+	defer b.mu.Unlock()
+	return b.dead
 }
 
 type allDone struct {
@@ -1016,8 +1047,21 @@ func runMuxScenario(t *testing.T, sc *MuxScenario, tape *core.Tape) (mr *muxRun)
 		for _, rs := range mr.reqs {
 			rs.q.cancel()
 		}
+		if mr.stop == core.StopDone && len(mr.registrars) > 0 {
+			// every registration has returned: nothing of it may still be
+			// open on a backend connection
+			synctest.Wait()
+			for _, b := range mr.backends {
+				if n := b.refl.activeStreams(); n > 0 {
+					mr.openRefl = append(mr.openRefl, b.spec.Tag+":"+strconv.Itoa(n))
+				}
+			}
+		}
 		if sc.Sequential && mr.stop == core.StopDone && len(mr.registrars) == 1 {
 			mr.ref = mr.referenceCheck(world)
+		}
+		for _, f := range mr.teardown {
+			f()
 		}
 		mr.stopBackends()
 		synctest.Wait()
@@ -1067,6 +1111,9 @@ func (mr *muxRun) globalInvariants(prop string) *Violation {
 	}
 	if mr.sim == nil {
 		return violationf(prop, "harness-no-simulation", "harness", "the bubble did not start: %s", mr.bubblePanic)
+	}
+	if len(mr.openRefl) > 0 {
+		return violationf(prop, "reflection-stream-left-open", "RegisterConn", "every RegisterConn call had returned, yet reflection streams were still open on %v (the caller's context lives on, as context.Background() would): each such call leaves one more stream on the connection the requests use", mr.openRefl)
 	}
 	// metadata the handlers own and share stays as they made it; a response
 	// header set by a handler only ever carries that handler's own value
